@@ -288,6 +288,9 @@ var c20Loops = []string{
 	"def f: if . >= $n then . else . as $i | try ([] | implode | .[0] | error) catch ($i + 1) | f end; 0 | f", "def f: if . >= $n then . else . as $i | try ({} | .[0]) catch ($i + 1) | f end; 0 | f", "def f: if . >= $n then . else . as $i | (try (\"a\" | . - 1) catch $i) + 1 | f end; 0 | f",
 	"0 | until(. >= $n; . as $i | [.[0]?, $i + 1] | .[-1])", "0 | until(. >= $n; . as $i | (try error catch $i) + 1)", "0 | until(. >= $n; . as $i | try (null | fromjson) catch ($i + 1))", "reduce range($n) as $i (0; try (\"x\" | tonumber) catch ($i + 1))", "last(foreach range($n) as $i (0; try ({} | has(0)) catch ($i + 1)))",
 	"last(limit($n + 1; 0 | recurse(. as $i | try (\"x\" | tonumber) catch ($i + 1))))", "0 | last(while(. < $n; . as $i | try ({a: 1} | .[0]) catch ($i + 1)))", "def f: if . >= $n then . else . as $i | try (try (\"x\" | tonumber) catch error) catch ($i + 1) | f end; 0 | f",
+	// turns that evaluate a path expression which forks while it is tracked (updates of several members, paths of alternatives)
+	"reduce range($n) as $i ([0, 0]; .[] |= . + 1) | .[0]", "[0, 0] | until(.[0] >= $n; map_values(. + 1)) | .[0]", "last(range($n) as $i | path(.a | (.b, .c)) | $i + 1)", "{a: 0, b: 0} | until(.a >= $n; (.a, .b) |= . + 1) | .a", "def f: if .[0] >= $n then .[0] else (.[] |= . + 1) | f end; [0, 0] | f",
+	"reduce range($n) as $i ({a: [0, 0]}; .a[] += 1) | .a[0]", "last(foreach range($n) as $i ([0, 0, 0]; (.[0], .[2]) |= . + 1; .[0]))", "[0] | last(while(.[0] < $n; (.. | numbers) |= . + 1)) | .[0] + 1", "reduce range($n) as $i ([0, 0]; del(.[2:]) | (.[0] // .[1]) |= . + 1) | .[0]", "last(limit($n; repeat([1, 2] | path(.[])))) | .[0] + $n - 1",
 	// turns that pass through the last (or only) member of a container before going on without backtracking
 	"0 | until(. >= $n; [. + 1][])", "0 | until(. >= $n; {a: (. + 1)}[])", "0 | until(. >= $n; [., . + 1] | .[1:][])", "0 | until(. >= $n; [. + 1] | .[0:][])", "0 | until(. >= $n; {a: (. + 1)} | .[keys[]])", "0 | until(. >= $n; {a: (. + 1)} | to_entries[] | .value)",
 	"0 | until(. >= $n; tostring | split(\",\")[] | tonumber + 1)", "0 | until(. >= $n; [[. + 1]][][])", "0 | until(. >= $n; . + 1 | tostring | [scan(\"[0-9]+\")][] | tonumber)", "0 | until(. >= $n; [. + 1] | .[-1:][])",
